@@ -75,6 +75,11 @@ static void observe_pair(const lp_feasibility_set_t* a, const lp_feasibility_set
   lp_feasibility_set_t* r = lp_feasibility_set_intersect_with_status(a, b, &st);
   sb_sp(); sb_fset(r); sb_sp(); sb_str(FST[st]); sb_emit();
   lp_feasibility_set_delete(r);
+  /* the status-free entry point must return the same set */
+  sb_begin("fset", "intersect"); sb_sp(); sb_fset(a); sb_sp(); sb_fset(b); sb_arrow();
+  r = lp_feasibility_set_intersect(a, b);
+  sb_sp(); sb_fset(r); sb_sp(); sb_str(FST[st]); sb_emit();
+  lp_feasibility_set_delete(r);
   sb_begin("fset", "add"); sb_sp(); sb_fset(a); sb_sp(); sb_fset(b); sb_arrow();
   r = lp_feasibility_set_new_copy(a); lp_feasibility_set_add(r, b);
   sb_sp(); sb_fset(r); sb_emit();
@@ -87,6 +92,12 @@ static void observe_pair(const lp_feasibility_set_t* a, const lp_feasibility_set
     lp_interval_cmp_t c = lp_interval_cmp_with_intersect(I1, I2, &P);
     sb_sp(); sb_str(ICMP[c]); sb_sp();
     if (c == LP_INTERVAL_CMP_LT_NO_INTERSECT || c == LP_INTERVAL_CMP_GT_NO_INTERSECT) sb_str("none"); else sb_vi(&P);
+    sb_emit();
+    /* lp_interval_cmp: the same classification without the intersection */
+    sb_begin("fset", "icmp"); sb_sp(); sb_vi(I1); sb_sp(); sb_vi(I2); sb_arrow();
+    lp_interval_cmp_t c2 = lp_interval_cmp(I1, I2);
+    sb_sp(); sb_str(ICMP[c2]); sb_sp();
+    if (c2 == LP_INTERVAL_CMP_LT_NO_INTERSECT || c2 == LP_INTERVAL_CMP_GT_NO_INTERSECT || c2 != c) sb_str("none"); else sb_vi(&P);
     sb_emit();
     lp_interval_destruct(&P);
   }
